@@ -953,6 +953,65 @@ class Gen:
             c["doc2"] = self.recase_doc(c["type"], c["doc"])
         return res
 
+    # ---- spellings: a document without any upper-case letter against its mixed-case key spelling
+    def spelling_case(self):
+        """a generated (type, document) in which NOTHING is upper case or non-ASCII (field keys, map keys, string
+        values) and at least one list is explicitly empty, with its re-cased twin (at least one key with an
+        upper-case letter): a canonicalisation that treats already-canonical documents specially shows here"""
+        rng = self.rng
+
+        def low(s):
+            s = s.lower()
+            return s if s.isascii() else "x"
+
+        def lower_doc(d, force):
+            if "s" in d:
+                return ds(low(d["s"]))
+            if "l" in d:
+                if force and rng.random() < 0.5:
+                    return dl()
+                return dl(*[lower_doc(e, force) for e in d["l"]])
+            if "m" in d:
+                seen, out = set(), []
+                for kv in d["m"]:
+                    k = low(kv["k"])
+                    while k in seen:
+                        k += "_"
+                    seen.add(k)
+                    out.append((k, lower_doc(kv["v"], force)))
+                return dm(*out)
+            return d
+
+        def upper_keys(fields, doc):
+            g = self.recase_doc(fields, doc)
+            if json.dumps(g) == json.dumps(doc) and doc.get("m"):       # nothing changed: upper-case every field key
+                fl = {f["key"].lower() for f in flat_fields(fields)}
+                g = {"m": [{"k": kv["k"].upper() if kv["k"] in fl else kv["k"], "v": kv["v"]} for kv in doc["m"]]}
+            return g
+
+        for _ in range(50):
+            depth = rng.choice([1, 1, 2, self.maxdepth])
+            fields = self.gen_fields(depth, False, rng.randint(1, 4))
+            # at least one list-typed member, so that an empty list can be written
+            key = rng.choice([k for k in ["hosts", "Endpoints", "peerList"] if k.lower() not in {f["key"].lower() for f in flat_fields(fields)}])
+            et = rng.choice([P("string"), P("int"), Ptr(P("string")), Sl(P("int")), St(F("Addr", P("string")), F("W", P("int"), O(opt=True))),
+                             Ptr(St(F("Addr", P("string")))), Mp(P("string"))])
+            fields.append(F(key, rng.choice([Sl(et), Mp(Sl(et)), Sl(Sl(et)), Ptr(Sl(et)) if et["k"] != "ptr" else Sl(et)]),
+                            rng.choice([None, O(opt=True)])))
+            doc = self.obj(fields, False, False)
+            doc = lower_doc(doc, True)
+            keyl = key.lower()
+            if not any(kv["k"] == keyl for kv in doc["m"]):
+                t = deref(fields[-1]["t"])
+                doc["m"].append({"k": keyl, "v": dl() if t["k"] == "slice" else dm(("z1", dl()), ("z2", dl()))})
+            if '"l": []' not in json.dumps(doc):
+                continue
+            c = {"kind": "load", "type": fields, "doc": doc, "doc2": upper_keys(fields, doc), "env": None}
+            if detect_shapes(c) or lower_collisions(c):
+                continue
+            return c
+        return None
+
     def mfmt_case(self):
         """mapping.Unmarshal{Json,Yaml,Toml}{Bytes,Reader}: no conf layer, keys are matched exactly"""
         rng = self.rng
@@ -1386,6 +1445,115 @@ def bad_corpus():
     return [{"kind": "bad", "type": T, "doc": dm(), "doc2": None, "env": None, "texts": t} for t in bad]
 
 
+# ---------------------------------------------------------------------------- spellings of one document
+
+SPELL_MIXED = {"name": "Name", "hosts": "hOSTs", "nodes": "Nodes", "ports": "PORTS", "meta": "Meta", "sub": "Sub", "items": "Items",
+               "peers": "peerS", "byzone": "ByZone", "groups": "GROUPS", "members": "Members", "rate": "Rate", "addr": "Addr", "tags": "TAGS"}
+
+
+def spelling_corpus():
+    """The SAME document in several spellings (seeded change C17-9: a canonicalisation pass that is skipped when
+    the raw text 'has nothing to canonicalise' — but the pass is not the identity on canonical input, and raw
+    text is not decoded text).  Fixed cases, run first, whatever VERIF_SEED:
+    * all-lower-case spelling (keys, map keys, string values, exponents: NO upper-case letter and no non-ASCII
+      byte anywhere in any rendering) against the mixed-case key spelling, both directions, and against a
+      spelling in which ONE unrelated key / one unrelated string value / one map key / one float exponent has an
+      upper-case letter: explicitly EMPTY lists and maps at every kind of position (field, optional field,
+      nested struct, list of lists, map of lists, struct in map, pointer elements), compared deeply — a nil
+      slice is not an empty slice;
+    * hand-written texts of one document: JSON keys and values with u-escapes (lower- and upper-case hex
+      digits), surrogate pairs against raw UTF-8 and U-escapes, YAML quoted keys / anchors / aliases / flow
+      style, TOML quoted and dotted keys, literal strings, arrays of tables."""
+    node = St(F("Addr", P("string")), F("Tags", Sl(P("string")), O(opt=True)))
+    T = [F("Name", P("string")), F("Hosts", Sl(P("string"))), F("Nodes", Sl(node)), F("Ports", Sl(P("int")), O(opt=True)),
+         F("Meta", Mp(P("string")), O(opt=True)),
+         F("Sub", St(F("Items", Sl(Sl(P("int")))), F("Peers", Sl(Ptr(P("string"))), O(opt=True))), O(opt=True)),
+         F("ByZone", Mp(Sl(P("string"))), O(opt=True)), F("Groups", Mp(St(F("Members", Sl(P("string"))))), O(opt=True)),
+         F("Rate", P("float64"), O(opt=True))]
+    lower = lambda k: k
+    mixed = lambda k: SPELL_MIXED[k]
+
+    def doc(kc, name="svc", zone="z1", rate=None, full=True):
+        pairs = [(kc("name"), ds(name)), (kc("hosts"), dl()), (kc("nodes"), dl())]
+        if full:
+            pairs += [(kc("ports"), dl()), (kc("meta"), dm()),
+                      (kc("sub"), dm((kc("items"), dl(dl(), dl(di(1)))), (kc("peers"), dl()))),
+                      (kc("byzone"), dm((zone, dl()), ("z2", dl(ds("a"))))),
+                      (kc("groups"), dm(("g1", dm((kc("members"), dl())))))]
+        if rate is not None:
+            pairs.append((kc("rate"), dfl(rate)))
+        return dm(*pairs)
+
+    def load(tag, d, d2, typ=T, **kw):
+        c = {"kind": "load", "tag": "c9-" + tag, "type": typ, "doc": d, "doc2": d2, "env": None}
+        c.update(kw)
+        return c
+
+    one_key = lambda k: "Name" if k == "name" else k
+    cs = [
+        load("keys", doc(lower), doc(mixed)),
+        load("keys-rev", doc(mixed), doc(lower)),
+        load("one-key", doc(lower), doc(one_key)),
+        load("small", doc(lower, full=False), doc(mixed, full=False)),
+        load("nodes-filled", dm(("name", ds("svc")), ("hosts", dl(ds("a"))), ("nodes", dl(dm(("addr", ds("x")), ("tags", dl()))))),
+             dm(("Name", ds("svc")), ("Hosts", dl(ds("a"))), ("nodes", dl(dm(("Addr", ds("x")), ("TAGS", dl())))))),
+        # the same, but ONE unrelated string value / map key / exponent carries an upper-case letter (each is compared
+        # with the model, which loads all of them like "keys": every empty list nil)
+        load("value", doc(lower, name="Svc"), doc(mixed, name="Svc")),
+        load("value-lower-twin", doc(lower, name="Svc"), None),
+        load("mapkey", doc(lower, zone="Z1"), None),
+        load("exponent-upper", doc(lower, rate="1E5"), None),        # JSON keeps 1E5, YAML / TOML re-render the number
+        load("exponent-lower", doc(lower, rate="1e5"), doc(mixed, rate="1e5")),
+        load("minimal", dm(("hosts", dl())), dm(("Hosts", dl())), typ=[F("Hosts", Sl(P("string")))]),
+        load("minimal-opt", dm(("hosts", dl()), ("m", dm())), dm(("HOSTS", dl()), ("M", dm())),
+             typ=[F("hosts", Sl(Ptr(St(F("A", P("int"))))), O(opt=True)), F("m", Mp(Mp(P("int"))), O(opt=True))]),
+    ]
+    cs.append({"kind": "shape", "tag": "c9-shape", "env": None, "noload": False,
+               "type": [F("Timeouts", Sl(P("dur"))), F("Blobs", Sl(P("bytes")), O(opt=True)), F("Pairs", Sl(Nm("Node")), O(opt=True)),
+                        F("Extra", Mp(P("any")), O(opt=True)), F("Ids", Sl(Nm("MyInt")), O(opt=True))],
+               "doc": dm(("timeouts", dl()), ("blobs", dl()), ("pairs", dl()), ("extra", dm()), ("ids", dl())),
+               "doc2": dm(("Timeouts", dl()), ("BLOBS", dl()), ("Pairs", dl()), ("eXtra", dm()), ("Ids", dl()))})
+    # ---- hand-written texts
+    T2 = [F("Name", P("string")), F("Hosts", Sl(P("string"))), F("Nodes", Sl(node))]
+    d2 = doc(lower, full=False)
+    cs.append(load("json-escapes-upper-hex", d2, d2, typ=T2,
+                   texts={"json": "{\"n\\u0061me\":\"svc\",\"h\\u006Fsts\":[],\"nodes\":[]}",
+                          "yaml": "name: svc\nhosts: []\nnodes: []\n",
+                          "toml": "name = \"svc\"\nhosts = []\nnodes = []\n"},
+                   texts2={"json": " {\"n\\u0061me\" : \"s\\u0076c\", \"hosts\":[ ],\n\"nodes\":[]}",
+                           "yaml": "\"name\": svc\n'hosts': &e []\nnodes: *e\n",
+                           "toml": "\"name\" = 'svc'\n'hosts' = []\nnodes = [\n]\n"}))
+    d3 = dm(("Name", ds("svc")), ("Hosts", dl(ds("a"))), ("nodes", dl(dm(("Addr", ds("x"))))))
+    cs.append(load("json-escaped-keys", d3, d3, typ=T2,
+                   texts={"json": "{\"\\u004eame\": \"svc\", \"\\u0048osts\": [\"a\"], \"nodes\": [{\"\\u0041ddr\": \"x\"}]}",
+                          "yaml": "Name: svc\nHosts: [a]\nnodes:\n- Addr: x\n",
+                          "toml": "Name = \"svc\"\nHosts = [\"a\"]\n[[nodes]]\nAddr = \"x\"\n"},
+                   texts2={"json": "{\"\\u004Eame\": \"svc\", \"\\u0048\\u006fsts\": [\"\\u0061\"], \"nodes\": [{\"\\u0041ddr\": \"x\"}]}",
+                           "yaml": "\"Name\": svc\n\"Hosts\": ['a']\nnodes: [{\"\\x41ddr\": x}]\n",
+                           "toml": "\"Name\" = \"svc\"\n\"Hosts\" = ['a']\nnodes = [{\"\\u0041ddr\" = \"x\"}]\n"}))
+    emo = "\U0001F600"
+    T4 = [F("Name", P("string")), F("Hosts", Sl(P("string"))), F("Meta", Mp(P("string")), O(opt=True))]
+    d4 = dm(("name", ds(emo + " ok")), ("hosts", dl()), ("meta", dm(("k" + emo, ds("v")))))
+    cs.append(load("surrogates", d4, d4, typ=T4,
+                   texts={"json": "{\"name\":\"\\ud83d\\ude00 ok\",\"hosts\":[],\"meta\":{\"k\\ud83d\\ude00\":\"v\"}}",
+                          "yaml": "name: \"\\U0001F600 ok\"\nhosts: []\nmeta: {\"k\\U0001F600\": v}\n",
+                          "toml": "name = \"\\U0001F600 ok\"\nhosts = []\n[meta]\n\"k\\U0001F600\" = \"v\"\n"},
+                   texts2={"json": "{\"name\":\"" + emo + " ok\",\"hosts\":[],\"meta\":{\"k" + emo + "\":\"v\"}}",
+                           "yaml": "name: " + emo + " ok\nhosts: []\nmeta:\n  k" + emo + ": v\n",
+                           "toml": "name = '" + emo + " ok'\nhosts = []\nmeta = {\"k" + emo + "\" = \"v\"}\n"}))
+    T5 = [F("Name", P("string")), F("Sub", St(F("Items", Sl(Sl(P("int")))), F("Peers", Sl(Ptr(P("string"))), O(opt=True))), O(opt=True)),
+          F("ByZone", Mp(Sl(P("string"))), O(opt=True))]
+    sub = lambda kc: dm((kc("name"), ds("svc")), (kc("sub"), dm((kc("items"), dl()), (kc("peers"), dl()))), (kc("byzone"), dm(("z1", dl()))))
+    cs.append(load("anchors-dotted-keys", sub(lower), sub(mixed), typ=T5,
+                   texts={"json": "{\"name\":\"svc\",\"sub\":{\"items\":[],\"peers\":[]},\"byzone\":{\"z1\":[]}}",
+                          "yaml": "name: svc\nsub: &s\n  items: &e []\n  peers: *e\nbyzone:\n  z1: *e\n",
+                          "toml": "name = \"svc\"\nsub.items = []\nsub.peers = []\nbyzone.\"z1\" = []\n"},
+                   texts2={"json": "{\"N\\u0061me\":\"svc\",\"Sub\":{\"Items\":[],\"peerS\":[]},\"ByZone\":{\"z1\":[]}}",
+                           "yaml": "Name: svc\n\"Sub\": {Items: [], 'peerS': []}\nByZone: {z1: []}\n",
+                           "toml": "Name = \"svc\"\nSub.Items = []\nSub.\"peerS\" = []\n[ByZone]\nz1 = []\n"}))
+    return cs
+
+
 # ---------------------------------------------------------------------------- constants read from the source
 
 def regen_constants():
@@ -1557,7 +1725,7 @@ class C17(Property):
                  "doc2": dm(("VALUE", dm(("first", dm(("User", dm(("user", ds("u")))))))), ("l", dl(dm(("User", dm(("User", ds("w")))))))),
                  "env": None},
             ]
-        cs += raw_corpus() + bad_corpus()
+        cs = spelling_corpus() + cs + raw_corpus() + bad_corpus()
         # aliasing witnesses (seeded change C17-4): two entries, two cells
         for kind, key in (("std", "limits"), ("load", "Limits"), ("mfmt", "Limits")):
             cs.append({"kind": kind, "type": [F(key, Mp(Ptr(P("int")))), F("rates", Mp(Mp(Ptr(P("float64")))), None if kind == "std" else O(opt=True))],
@@ -1628,7 +1796,7 @@ class C17(Property):
         tries = 0
         landed = fix_landed()
         n_shape = max(40, n // 5)
-        n_main = n - n_shape - max(24, n // 20) - 48
+        n_main = n - n_shape - max(24, n // 20) - 48 - max(16, n // 40)
         while len(cases) < n_main and tries < 20 * n:
             tries += 1
             r = rng.random()
@@ -1652,6 +1820,10 @@ class C17(Property):
             cases.append(c)
         grid = [c for c in g.option_grid() if not detect_shapes(c)]
         cases += grid if tier != "quick" else rng.sample(grid, min(len(grid), 48))
+        for _ in range(max(16, n // 40)):
+            c = g.spelling_case()
+            if c is not None and (landed or not nested_map_shape(c)):
+                cases.append(c)
         n_alias = 0
         while n_alias < max(24, n // 20):
             c = g.alias_case(["load", "std", "mfmt"][n_alias % 3])
